@@ -14,7 +14,7 @@ use crate::gen::*;
 use crate::refmodel::framing::{decide, Framing};
 use crate::refmodel::reqvalid::{self, ReqFacts};
 
-pub const RULE: &str = "scenarios = requests (9 methods x {1.0,1.1} x Expect {no,yes} x send-body-despite-method {no,yes} x framing header {none, content-length: 3, content-length: 0, transfer-encoding: chunked}; rejected ones are kept and must stay in SendRequest) x server behaviours (interim 100 in time / late via give-up, silent server, refusal bare 403 / 403 with fields, final status {200,204,205,300,304,404,302 with Location,302 without,307 with Location,399 with Location} x version {1.0,1.1} x body {no framing header, Content-Length: 0, Content-Length: 3, chunked}; 200/302/399 over HTTP/1.1 also with an empty-valued field ahead of all others); coarse I/O (whole message or cuts after the status line / after the head / mid-body; thorough: 1-byte arrivals too); in every state: all permitted calls incl. proceed() on a clone whether or not ready, head write after completion, finishing write after the end, reads after the end, as_new_flow with both policies (twice) followed by a complete second exchange on the new flow; successor state compared with the documented graph at every edge; every state must reach Cleanup; plus repetition: as_new_flow() called four times with alternating policies at each of three hops of a redirect chain (4 methods x 3 statuses), and in 9 canonical exchanges every state's main call repeated 8 times after it has given its answer (head write, finishing / further body writes and direct-write reports, try_response, reads after the end, as_new_flow), the exchange then completed. distinct = distinct (scenario, final observation)";
+pub const RULE: &str = "scenarios = requests (9 methods x {1.0,1.1} x Expect {no,yes} x send-body-despite-method {no,yes} x framing header {none, content-length: 3, content-length: 0, transfer-encoding: chunked}; rejected ones are kept and must stay in SendRequest; plus requests with 64..1000 original headers whose head must come out completely) x server behaviours (interim 100 in time / late via give-up, silent server, refusal bare 403 / 403 with fields, final status {200,204,205,300,304,404,302 with Location,302 without,307 with Location,399 with Location} x version {1.0,1.1} x body {no framing header, Content-Length: 0, Content-Length: 3, chunked}; 200/302/399 over HTTP/1.1 also with an empty-valued field ahead of all others); coarse I/O (whole message or cuts after the status line / after the head / mid-body; thorough: 1-byte arrivals too); in every state: all permitted calls incl. proceed() on a clone whether or not ready, head write after completion, finishing write after the end, reads after the end, as_new_flow with both policies (twice) followed by a complete second exchange on the new flow; successor state compared with the documented graph at every edge; every state must reach Cleanup; plus repetition: as_new_flow() called four times with alternating policies at each of three hops of a redirect chain (4 methods x 3 statuses), and in 9 canonical exchanges every state's main call repeated 8 times after it has given its answer (head write, finishing / further body writes and direct-write reports, try_response, reads after the end, as_new_flow), the exchange then completed and the states passed through compared with the straight run; plus interleaving: all 25 ordered pairs of five exchanges (HTTP/1.0 answers, Expect uploads, a redirect, a refusal) driven alternately on one thread. distinct = distinct (scenario, final observation)";
 
 const METHODS: [&str; 9] = ["GET", "HEAD", "POST", "PUT", "DELETE", "CONNECT", "OPTIONS", "TRACE", "PATCH"];
 
@@ -94,6 +94,43 @@ fn prepare_panics() -> Vec<(String, String)> {
         });
         if let Err(p) = res {
             v.push((r.label.clone(), p));
+        }
+    }
+    // requests with very many original headers (the caller-added ones are capped, the original ones are not):
+    // the head must come out completely, whatever the buffer size
+    for n in [64usize, 254, 255, 256, 257, 300, 1000] {
+        for buf in [64usize, 4096] {
+            let res = guarded(|| -> Result<(), String> {
+                let mut c = ReqCfg::new("POST", "1.1", "http://a.test/p");
+                for j in 0..n {
+                    c = c.orig(&format!("x-h-{}", j), "v");
+                }
+                let mut sr = c.build_prepare()?.proceed();
+                let mut b = vec![0u8; buf];
+                let mut lines = 0usize;
+                for _ in 0..(n + 10) * 2 {
+                    let k = sr.write(&mut b).map_err(|e| format!("write: {:?}", e))?;
+                    lines += b[..k].iter().filter(|c| **c == b'\n').count();
+                    if sr.can_proceed() {
+                        break;
+                    }
+                    if k == 0 {
+                        return Err("write returned 0 before the head was complete".into());
+                    }
+                }
+                if !sr.can_proceed() {
+                    return Err(format!("the head of a request with {} headers never completes ({} lines emitted)", n, lines));
+                }
+                if lines != n + 4 {
+                    return Err(format!("{} lines emitted for a request with {} original headers (request line, Host, framing header, empty line expected in addition)", lines, n));
+                }
+                Ok(())
+            });
+            match res {
+                Ok(Ok(())) => {}
+                Ok(Err(e)) => v.push((format!("POST with {} original headers, {}-byte buffers", n, buf), format!("panic: not a panic, but the flow is unusable: {} at -", e))),
+                Err(p) => v.push((format!("POST with {} original headers, {}-byte buffers", n, buf), p)),
+            }
         }
     }
     v
@@ -261,7 +298,8 @@ fn repeated_calls() -> Vec<(String, String, Value)> {
     for (m, expect) in [("GET", false), ("POST", false), ("POST", true)] {
         for resp in [&b"HTTP/1.1 200 OK\r\nConnection: close\r\nContent-Length: 3\r\n\r\nabc"[..], &b"HTTP/1.0 404 Nope\r\nConnection: close\r\n\r\nbye"[..], &b"HTTP/1.1 302 Found\r\nLocation: /n\r\nConnection: close\r\nTransfer-Encoding: chunked\r\n\r\n3\r\nabc\r\n0\r\n\r\n"[..]] {
             let label = format!("{}{} answered by {:?}", m, if expect { " + Expect" } else { "" }, crate::engine::show(&resp[..20]));
-            let r = guarded(|| -> Result<(), String> {
+            let run = |reps: usize| -> Result<Vec<&'static str>, String> {
+                let mut path: Vec<&'static str> = Vec::new();
                 let mut rq = ReqCfg::new(m, "1.1", "http://a.test/p").orig("connection", "close");
                 if m == "POST" {
                     rq = rq.orig("content-length", "3");
@@ -272,17 +310,18 @@ fn repeated_calls() -> Vec<(String, String, Value)> {
                 let mut sr = rq.build_prepare()?.proceed();
                 let mut buf = vec![0u8; 4096];
                 crate::driver::write_whole_head(&mut sr).map_err(|e| format!("head: {}", e))?;
-                for _ in 0..8 {
+                for _ in 0..reps {
                     let _ = sr.write(&mut buf);
                     let _ = sr.can_proceed();
                 }
                 let mut cur = AnyFlow::SendRequest(sr).proceed()?.ok_or("cannot leave SendRequest")?;
                 let mut off = 0usize;
                 for _ in 0..12 {
+                    path.push(cur.name());
                     cur = match cur {
                         AnyFlow::Await100(mut a) => {
                             // documented usage: look only while the flow wants to keep waiting
-                            for _ in 0..8 {
+                            for _ in 0..reps {
                                 if a.can_keep_await_100() {
                                     let _ = a.try_read_100(b"HTTP/1.1 100 Continue\r\n\r\n");
                                 }
@@ -291,7 +330,7 @@ fn repeated_calls() -> Vec<(String, String, Value)> {
                         }
                         AnyFlow::SendBody(mut b) => {
                             let _ = b.write(b"abc", &mut buf).map_err(|e| format!("body: {:?}", e))?;
-                            for _ in 0..8 {
+                            for _ in 0..reps {
                                 let _ = b.write(&[], &mut buf);
                                 let _ = b.write(b"x", &mut buf);
                                 let _ = b.consume_direct_write(1);
@@ -303,7 +342,7 @@ fn repeated_calls() -> Vec<(String, String, Value)> {
                             if r.is_none() {
                                 return Err("response not accepted".into());
                             }
-                            for _ in 0..8 {
+                            for _ in 0..reps {
                                 let _ = f.try_response(&resp[off..]);
                                 let _ = f.try_response(&resp[off + n..]);
                             }
@@ -312,28 +351,36 @@ fn repeated_calls() -> Vec<(String, String, Value)> {
                         }
                         AnyFlow::RecvBody(mut b) => {
                             let mut out = [0u8; 64];
-                            for _ in 0..16 {
+                            for _ in 0..reps.max(1) * 2 {
                                 let (c, _) = b.read(&resp[off..], &mut out).map_err(|e| format!("read: {:?}", e))?;
                                 off += c;
                             }
                             AnyFlow::RecvBody(b).proceed()?.ok_or("cannot leave RecvBody after repeated reads")?
                         }
                         AnyFlow::Redirect(mut r) => {
-                            for _ in 0..4 {
+                            for _ in 0..reps / 2 {
                                 let _ = r.as_new_flow(Never);
                             }
                             AnyFlow::Redirect(r).proceed()?.ok_or("redirect")?
                         }
                         AnyFlow::Cleanup(c) => {
-                            for _ in 0..8 {
+                            for _ in 0..reps {
                                 let _ = (c.must_close_connection(), c.close_reason());
                             }
-                            return Ok(());
+                            return Ok(path);
                         }
                         o => return Err(format!("unexpected state {}", o.name())),
                     };
                 }
                 Err("exchange did not reach Cleanup".into())
+            };
+            let r = guarded(|| -> Result<(), String> {
+                let straight = run(0)?;
+                let repeated = run(8)?;
+                if straight != repeated {
+                    return Err(format!("the exchange passes through {:?} when every call is made once, but through {:?} when calls are repeated after they gave their answer", straight, repeated));
+                }
+                Ok(())
             });
             match r {
                 Ok(Ok(())) => {}
@@ -343,6 +390,26 @@ fn repeated_calls() -> Vec<(String, String, Value)> {
         }
     }
     fails
+}
+
+/// Flows interleaved on one thread: an exchange answered over HTTP/1.0, an upload with Expect and a 100
+/// in time, a redirect, a refused upload - every ordered pair (what one flow learns about its peer must
+/// not steer another flow through the state graph).
+fn interleave_menu(all: &[Arc<ExchCfg>]) -> Vec<Arc<ExchCfg>> {
+    let mut v: Vec<Arc<ExchCfg>> = Vec::new();
+    let plain = |c: &ExchCfg| c.req.version == "1.1" && !c.req.despite_method;
+    let mut want: Vec<Box<dyn Fn(&ExchCfg) -> bool>> = Vec::new();
+    want.push(Box::new(move |c| plain(c) && c.req.method == "GET" && !c.req.expects_100() && c.server.len() == 1 && c.server[0].msg.status == 200 && c.server[0].msg.version == "1.0" && c.server[0].msg.get("content-length") == Some(&b"3"[..])));
+    want.push(Box::new(move |c| plain(c) && c.req.method == "POST" && c.req.expects_100() && c.server.len() == 2 && c.server[1].msg.status == 200 && c.server[1].msg.version == "1.1" && c.server[1].msg.get("transfer-encoding").is_some()));
+    want.push(Box::new(move |c| plain(c) && c.req.method == "GET" && !c.req.expects_100() && c.server.len() == 1 && c.server[0].msg.status == 302 && c.server[0].msg.get("location").is_some() && c.server[0].msg.get("content-length") == Some(&b"0"[..])));
+    want.push(Box::new(move |c| plain(c) && c.req.method == "POST" && c.req.expects_100() && c.server.len() == 1 && c.server[0].gate == Gate::AfterHead && c.server[0].msg.status == 403 && c.server[0].msg.fields.is_empty()));
+    want.push(Box::new(move |c| plain(c) && c.req.method == "PUT" && c.req.expects_100() && c.server.len() == 1 && c.server[0].gate == Gate::AfterBody && c.server[0].msg.status == 200 && c.server[0].msg.version == "1.0"));
+    for w in want {
+        if let Some(c) = all.iter().find(|c| w(c)) {
+            v.push(c.clone());
+        }
+    }
+    v
 }
 
 pub fn run(tier: Tier) -> Report {
@@ -356,8 +423,11 @@ pub fn run(tier: Tier) -> Report {
         return rep;
     }
     let cfgs = build(tier);
+    let menu = interleave_menu(&cfgs);
     let lim = Limits { max_states: 1_000_000, keep_final_traces: 2, keep_state_traces: 2, check_coreach: true, probe_every: 8, ..Default::default() };
     let mut rep = run_exchanges(cfgs, &lim, false, |c| c.to_json());
+    rep.guard("interleave menu complete", menu.len() == 5);
+    crate::exch_run::run_interleaved("C09", menu, &mut rep);
     let fs = rep.extra.get("final_states").and_then(|v| v.as_u64()).unwrap_or(0);
     rep.guard("final states reached", fs > 0);
     let rejected: Vec<(ReqSpec, bool)> = requests().into_iter().filter(|(_, v)| !v).collect();
@@ -386,6 +456,11 @@ pub fn run(tier: Tier) -> Report {
 pub fn replay(v: &Value) -> Result<Option<String>, String> {
     if v["kind"].as_str() == Some("prepare") {
         return Ok(prepare_panics().into_iter().next().map(|(l, p)| format!("[C09:prepare:panic] {} [{}]", p, l)));
+    }
+    if v["kind"].as_str() == Some("interleaved") {
+        let mut r = Report::new();
+        crate::exch_run::run_interleaved("C09", interleave_menu(&build(Tier::Quick)), &mut r);
+        return Ok(r.violations.into_iter().next().map(|(k, (_, v))| format!("[{}] {}", k, v.what)));
     }
     if v["kind"].as_str() == Some("repeated") {
         return Ok(repeated_calls().into_iter().next().map(|(k, w, _)| format!("[{}] {}", k, w)));
